@@ -68,6 +68,9 @@ INV = Hom(())
 # parts are known to scale differently: certainly not invariant as a whole,
 # nothing is known about any further computation on it
 MIXED = Hom("mixed")
+# the same, and the parts lie along the last (coordinate) axis: a vector
+# whose entries scale differently is not a homogeneous coordinate vector
+MIXED_COORD = Hom("mixed", True)
 COMPLEX_VARS = set()        # names of complex scale variables
 
 
@@ -162,9 +165,10 @@ def conj(h):
     return Hom(_canon({v: (-n, m) for v, n, m in h.deg}), h.indep)
 
 
-def join(h1, h2):
+def join(h1, h2, coord=False):
     """The tag of a value that is h1 in one place and h2 in another (an
-    assembled buffer, np.where, np.stack): known only when they agree."""
+    assembled buffer, np.where, np.stack): known only when they agree.
+    coord: the places differ along the last (coordinate) axis."""
     if h1 is None or h2 is None:
         return None
     if h1.wild:
@@ -172,10 +176,11 @@ def join(h1, h2):
     if h2.wild:
         return h1
     if h1.mixed or h2.mixed:
-        return MIXED
+        return MIXED_COORD if (coord or (h1.mixed and h1.indep)
+                               or (h2.mixed and h2.indep)) else MIXED
     if h1.same(h2):
         return Hom(h1.deg, h1.indep and h2.indep)
-    return MIXED
+    return MIXED_COORD if coord else MIXED
 
 
 def drop_rows(h):
@@ -473,7 +478,19 @@ class Tracker:
                 self.selects(it, i, "which entries are overwritten")
             base.hom = None
             return
-        base.hom = join(base.hom, hv)
+        nd = len(base.shape)
+        last = None
+        if Ellipsis in idx:
+            tail = [i for i in idx[idx.index(Ellipsis) + 1:]
+                    if i is not None]
+            last = tail[-1] if tail else None
+        else:
+            real = [i for i in idx if i is not None]
+            last = real[nd - 1] if len(real) >= nd else None
+        coord = isinstance(last, int) or (
+            isinstance(last, slice) and not (
+                last.start is None and last.stop is None))
+        base.hom = join(base.hom, hv, coord)
 
     def _reduce(self, it, a, axis, what):
         from .shape import _norm_axes
@@ -733,7 +750,17 @@ class Tracker:
             return out(h)
         if name in ("np.stack", "np.concatenate", "np.vstack", "np.hstack",
                     "np.column_stack"):
-            return out(drop_rows(self.of(a0)))
+            axis = kw.get("axis", args[1] if len(args) > 1 else 0)
+            coord = False
+            if name in ("np.stack", "np.concatenate") \
+                    and isinstance(res, AArr) and isinstance(axis, int):
+                coord = axis in (-1, len(res.shape) - 1)
+            h = WILD
+            for x in (a0 if isinstance(a0, (list, tuple)) else [a0]):
+                h = join(h, self.of(x), coord)
+                if h is None:
+                    break
+            return out(drop_rows(h))
         if name in REDUCTIONS:
             axis = kw.get("axis", args[1] if len(args) > 1 else None)
             if isinstance(a0, AArr):
